@@ -1152,4 +1152,17 @@ theorem ring_typed_write_width {α : Type} (t : TRing α) (d : List α) (k : Nat
 
 example : inInt (0 : Int) := by decide
 
+/-! ## 25. round 3: `get`, `head_place`, a moved-from ring brought back by `resize` -/
+
+/-- `get(index)` / `head_place()` are plain subscripts of the array: element `i` of
+the stored queue is `get((tail + i) mod size)`, `head_place()` is `get(head)`; and a
+moved-from ring (no storage) becomes the freshly constructed `ring(n)` again by
+`resize(n)`. -/
+theorem ring_get_head_place_moved {α : Type} (dflt : α) (t : TRing α) (q : List α) (n : Nat)
+    (h : Abs t.r t.buf q) :
+    (∀ i (hi : i < q.length), t.get ((t.r.tail.toNat + i) % t.r.size.toNat) = some q[i]) ∧
+    t.headPlace = t.get t.r.head.toNat ∧
+    TRing.resize dflt t.move.2 n = TRing.mk' dflt n :=
+  ⟨fun i hi => h.2.2.2 i hi, rfl, rfl⟩
+
 end Igris.C03
